@@ -12,6 +12,7 @@ import (
 	"verifharness/core"
 	"verifharness/gen"
 	"verifharness/model"
+	"verifharness/types"
 )
 
 // C05: codec laws. Every codec reachable from the generated types is called
@@ -243,7 +244,89 @@ func checkFrames(c *core.Ctx, tc *tcase, st subType, av reflect.Value, tag, tagg
 	}
 }
 
+// c05PtrPtr: Size and Append of slices of pointers to pointers whose outer pointer is set and inner
+// one is nil. Such an element does not come back as it was (one level of presence on the wire:
+// known finding D4), which keeps it out of the generated values - but what is appended for it must
+// still be what Size announced, or every length prefix around it is wrong.
+func c05PtrPtr(c *core.Ctx, idx int) {
+	rec := c.Rec
+	cfg := instCfgs()[idx%4]
+	name := cfgName(cfg)
+	p := instNew(cfg)
+	r := c.Rand(idx)
+	T := reflect.TypeOf
+	for _, el := range []reflect.Type{T(""), T(types.Leaf{}), model.TimeT, T([]byte(nil)), T(int32(0)), T(float64(0))} {
+		pp := reflect.PointerTo(reflect.PointerTo(el))
+		st := reflect.SliceOf(pp)
+		for _, opt := range []string{"", "proto"} {
+			ht := reflect.StructOf([]reflect.StructField{{Name: "A", Type: T(int8(0)), Tag: `plenc:"1"`}, {Name: "S", Type: st, Tag: reflect.StructTag(`plenc:"2` + map[string]string{"": "", "proto": ",proto"}[opt] + `"`)}, {Name: "Z", Type: T(""), Tag: `plenc:"3"`}})
+			if cfg.Validate(ht, "") != "" {
+				continue
+			}
+			codec, err := p.CodecForTypeWithTag(st, opt)
+			if err != nil {
+				continue
+			}
+			n := 1 + r.IntN(5)
+			sl := reflect.MakeSlice(st, n, n)
+			for i := 0; i < n; i++ {
+				switch r.IntN(3) {
+				case 0: // nil outer
+				case 1: // outer set, inner nil
+					sl.Index(i).Set(reflect.New(pp.Elem()))
+				default:
+					inner := reflect.New(el)
+					inner.Elem().Set((&gen.VG{R: r, C: cfg, Budget: 10}).Value(el, ""))
+					outer := reflect.New(pp.Elem())
+					outer.Elem().Set(inner)
+					sl.Index(i).Set(outer)
+				}
+			}
+			hold := reflect.New(st)
+			hold.Elem().Set(sl)
+			ptr := hold.UnsafePointer()
+			for _, tag := range [][]byte{nil, {0x12}, {0x82, 0x01}} {
+				var size int
+				var out []byte
+				if pn := core.Guard(func() { size = codec.Size(ptr, tag); out = codec.Append(nil, ptr, tag) }); pn != "" {
+					rec.Violation("size-append", fmt.Sprintf("[%s] Size/Append of (%s, %q) panicked: %s", name, st, opt, trunc1(pn)), nil)
+					return
+				}
+				rec.Eval(1)
+				if size != len(out) {
+					rec.Violation("size-append", fmt.Sprintf("[%s] codec %T for (%s, %q): Size(x, tag %x) = %d but Append wrote %d bytes (%x) for a slice whose elements are nil / point to nil / point to a value", name, codec, st, opt, tag, size, len(out), head(out, 40)), nil)
+					return
+				}
+			}
+			// inside a struct inside a struct: the size becomes a length prefix
+			hv := reflect.New(ht).Elem()
+			hv.Field(0).SetInt(1)
+			hv.Field(1).Set(sl)
+			hv.Field(2).SetString("z")
+			ot := reflect.StructOf([]reflect.StructField{{Name: "H", Type: ht, Tag: `plenc:"1"`}, {Name: "E", Type: T(int8(0)), Tag: `plenc:"2"`}})
+			ov := reflect.New(ot).Elem()
+			ov.Field(0).Set(hv)
+			ov.Field(1).SetInt(-1)
+			data, err2, pn := marshal(p, nil, ptrTo(ov))
+			if err2 != nil || pn != "" {
+				rec.Violation("marshal-error", fmt.Sprintf("[%s] %v %s\n  type %s", name, err2, trunc1(pn), typeString(ot)), nil)
+				return
+			}
+			if _, err := cfg.Canon(ot, "", data); err != nil {
+				rec.Violation("walk", fmt.Sprintf("[%s] Marshal output cannot be walked field by field to its end: %v\n  type %s\n  bytes %s", name, err, typeString(ot), hexHead(data)), nil)
+				return
+			}
+			rec.Count("pointer_to_nil_pointer_slices", 1)
+			rec.NonTrivial(core.Hash64("pp", st.String(), opt, name, fmt.Sprint(idx)))
+		}
+	}
+}
+
 func c05Case(c *core.Ctx, idx int) {
+	if idx%19 == 8 {
+		c05PtrPtr(c, idx)
+		return
+	}
 	tc := genType(c, idx, nil)
 	rec := c.Rec
 	if _, err := tc.p.CodecForType(tc.typ); err != nil {
